@@ -115,6 +115,45 @@ func idmImpl(h lib.History) []string {
 	return out
 }
 
+// idmExhaustive: EVERY sequence of up to 4 (thorough 5) mutators over the names {root, a, b}, each followed by a full
+// observation (the four maps, every lookup by name and by id, the administrator predicate).
+func idmExhaustive(tier string) []lib.History {
+	hx := lib.Hex
+	var alpha, obs []string
+	for _, n := range []string{"a", "b", "root"} {
+		alpha = append(alpha, "idm addgroup "+hx(n), "idm delgroup "+hx(n), "idm deluser "+hx(n))
+		obs = append(obs, "idm lookupgroup "+hx(n), "idm lookupuser "+hx(n), "idm isadmin "+hx(n))
+	}
+	for _, ug := range [][2]string{{"a", "a"}, {"a", "root"}, {"b", "a"}, {"a", "b"}, {"root", "root"}, {"b", "b"}} {
+		alpha = append(alpha, "idm adduser "+hx(ug[0])+" "+hx(ug[1]))
+	}
+	obs = append(obs, "idm dump")
+	for _, id := range []int{0, 1000, 1001, 1002, 1003, 1004} {
+		obs = append(obs, fmt.Sprintf("idm lookupgroupid %d", id), fmt.Sprintf("idm lookupuserid %d", id))
+	}
+	depth := 4
+	if tier == "thorough" {
+		depth = 5
+	}
+	first := "idm new " + hx("root") + " " + hx("root")
+	var hs []lib.History
+	var rec func(seq []string, d int)
+	rec = func(seq []string, d int) {
+		if len(seq) > 0 {
+			h := append(lib.History{first}, seq...)
+			hs = append(hs, append(h, obs...))
+		}
+		if d == 0 {
+			return
+		}
+		for _, a := range alpha {
+			rec(append(append([]string{}, seq...), a), d-1)
+		}
+	}
+	rec(nil, depth)
+	return hs
+}
+
 func idmGen(r *lib.Rng, n int) lib.History {
 	names := []string{"root", "a", "b", "c", ""}
 	h := lib.History{"idm new " + lib.Hex("root") + " " + lib.Hex("root")}
@@ -162,7 +201,7 @@ func toSpec(h lib.History) lib.History {
 
 func corrIdm(seed uint64, tier string, replay []string) *lib.Result {
 	res := &lib.Result{Property: "C15",
-		Rule: "random histories of the 9 idm operations (+dump of the four maps via the verif hook) over names {root,a,b,c,\"\"} and ids {0,1000..1004,-1}; a case is one call; distinct non-trivial = distinct (op kind, outcome, #groups, #users bucket) tuples"}
+		Rule: "EVERY sequence of up to 4 (thorough 5) mutators AddGroup / DelGroup / DelUser / AddUser over the names {root, a, b}, each followed by the dump of the four maps, every lookup by name and by id and the administrator predicate; plus random histories of the 9 idm operations (+dump of the four maps via the verif hook) over names {root,a,b,c,\"\"} and ids {0,1000..1004,-1}; a case is one call; distinct non-trivial = distinct (op kind, outcome, #groups, #users bucket) tuples"}
 	st := lib.NewStats()
 	var hs []lib.History
 	if replay != nil {
@@ -176,6 +215,7 @@ func corrIdm(seed uint64, tier string, replay []string) *lib.Result {
 		for i := 0; i < nh; i++ {
 			hs = append(hs, idmGen(r.Split(), nl))
 		}
+		hs = append(hs, idmExhaustive(tier)...)
 	}
 	model, err := lib.ModelExecAll(hs)
 	if err != nil {
